@@ -44,8 +44,15 @@ func TestVerifRistretto255(t *testing.T) {
 		return s.SetBigInt(k)
 	}
 	check := func(op, class string, want c13ref.EPoint, got group.Element, detail map[string]any) bool {
-		b, err := got.MarshalBinary()
+		detail["case-class"], class = class, c13ref.Coarse(class)
+		var b []byte
+		var err error
 		w := ri.Encode(want)
+		if pn := lib.Try("ristretto255.MarshalBinary", nil, func() { b, err = got.MarshalBinary() }); pn != nil {
+			detail["panic"] = pn.Value
+			lib.Violation("C13:panic:ristretto255."+op, monRis, detail)
+			return false
+		}
 		if err != nil || !lib.Eq(b, w) {
 			detail["want"], detail["got"] = w, b
 			lib.Violation("C13:wrong-result:ristretto255."+op+":"+class, monRis, detail)
@@ -64,7 +71,7 @@ func TestVerifRistretto255(t *testing.T) {
 		check("NewElement", "O", ed.O(), G.NewElement(), lib.D())
 	}
 
-	n := lib.Scale(400, 40000)
+	n := lib.Scale(400, 16000)
 	lib.Par(n, func(i int) {
 		r := lib.NewRng("c13/ristretto/diff", i)
 		p, q, rel := relatedE(ed, pool, r)
@@ -105,7 +112,7 @@ func TestVerifRistretto255(t *testing.T) {
 			return
 		}
 		if !G.NewElement().Add(P, neg).IsIdentity() {
-			lib.Violation("C13:wrong-result:ristretto255.Add:P+(-P)", monRis, det())
+			lib.Violation("C13:wrong-result:ristretto255.Add:Q=-P", monRis, det())
 		}
 		// CMov / CSelect
 		if !check("CMov", "0", p.P, P.Copy().CMov(0, Q), det()) || !check("CMov", "1", q.P, P.Copy().CMov(1, Q), det()) ||
